@@ -23,6 +23,7 @@ type Query implements Node {
   list(xs: [[Int]!]): [Int]
   req(a: Int!, b: Int! = 2): Int
   many(fs: [Filter!]): Int
+  nums(xs: [Int!] = [1, 2], ys: [[Int!]!]! = [[1]], z: Float = 2): Int
   trio: Trio
 }
 type Mutation { set(in: Filter!): Pet }
@@ -30,7 +31,7 @@ type Subscription { tick(every: Int): Int tock: Int pet: Pet }
 interface Node { id: ID! }
 interface Named implements Node { id: ID! name(short: Boolean): String }
 type Pet implements Named & Node { id: ID! name(short: Boolean): String kind: Kind owner: Person nick: String tags: [String!] }
-type Person implements Named & Node { id: ID! name(short: Boolean): String pets(first: Int = 1): [Pet] age: Int nick: Int tags: [String] friend: Person }
+type Person implements Node & Named { id: ID! name(short: Boolean): String pets(first: Int = 1): [Pet] age: Int nick: Int tags: [String] friend: Person }
 type Robot { id: ID! model: String }
 union Result = Pet | Person
 union Thing = Pet | Robot
@@ -212,6 +213,8 @@ var overlapArgs = []string{
 	`s: search(f: {req: true, sub: {req: false}}) { __typename }`, `s: search(q: "x") { __typename }`, `s: search(q: "y") { __typename }`, `s: search(q: """x""") { __typename }`, `s: search(q: $a) { __typename }`, `s: search(q: $b) { __typename }`,
 	`s: search(n: 1) { __typename }`, `s: search(n: 2) { __typename }`, `s: search(q: "x", n: 1) { __typename }`, `s: search(n: 1, q: "x") { __typename }`, `s: search(q: null) { __typename }`, `s: search(fl: 1) { __typename }`, `s: search(fl: 1.0) { __typename }`,
 	`s: pet { id }`, `s: search { ... on Pet { id } }`, `s: id`,
+	// arguments written in non-alphabetical order, each with an error of its own (errors come in source order)
+	`s: search(q: 1, n: "x") { __typename }`, `s: search(zz: 1, aa: 2, q: "x") { __typename }`,
 }
 
 var litMenu = []string{
@@ -262,7 +265,7 @@ var ValidProfiles = []Profile{
 	{Name: "values", Template: `query Q($v: Int, $w: Int!) { §0 u: list(xs: [[$v]]) w: req(a: $w) }`, Holes: [][]string{valuePositions()}},
 	{Name: "variables", Template: `query Q(§0) { §1 §2 } fragment VF on Query { req(a: $a) } fragment VG on Query { ...VF }`, Holes: [][]string{
 		{`$a: Int!`, `$a: Int`, `$a: Int = 1`, `$a: Int! = 1`, `$a: Int = null`, `$a: Nope`, `$a: Pet`, `$a: [Int!]`, `$a: String`, `$a: Int!, $a: Int!`, `$a: Int!, $k: Kind = DOG`, `$a: Int!, $f: Filter = {req: true}`, `$a: Int! = "s"`, `$a: [Int]! = [1, null]`, `$a: Int!, $z: Int`, `$a: ID!`, `$a: Float!`, `$a: Int! @tag(name: "v")`, `$a: Int! @once`, `$a: Kind! = BAD`, `$a: Filter = {name: 1}`, `$a: [[Int]!]`, `$a: [Int]`, `$a: Boolean!`},
-		{`req(a: $a)`, `r2: req(a: 1, b: $a)`, `search(n: $a) { __typename }`, `search(q: $a) { __typename }`, `list(xs: [[$a]])`, `list(xs: $a)`, `search(f: {req: true, min: $a}) { __typename }`, `...VF`, `...VG`, `id @tag(name: "x", n: $a)`, `id`, `node(id: $b) { id }`, `search(ks: [$a]) { __typename }`, `one(arg: {a: $a})`, `search(i: $a, fl: $a) { __typename }`, `pet(kind: $a) { id }`, `id @skip(if: $a)`, `search(f: {req: $a}) { __typename }`, `list(xs: [$a])`},
+		{`req(a: $a)`, `r2: req(a: 1, b: $a)`, `search(n: $a) { __typename }`, `search(q: $a) { __typename }`, `list(xs: [[$a]])`, `list(xs: $a)`, `search(f: {req: true, min: $a}) { __typename }`, `...VF`, `...VG`, `id @tag(name: "x", n: $a)`, `id`, `node(id: $b) { id }`, `search(ks: [$a]) { __typename }`, `one(arg: {a: $a})`, `search(i: $a, fl: $a) { __typename }`, `pet(kind: $a) { id }`, `id @skip(if: $a)`, `search(f: {req: $a}) { __typename }`, `list(xs: [$a])`, `nums(xs: [$a])`, `nums(ys: [[$a]])`, `nums(xs: $a)`, `many(fs: [{req: true, kinds: [DOG], min: $a}])`},
 		{``, `r3: req(a: $a)`, `k: pet(kind: $k) { id }`, `ff: search(f: $f) { __typename }`, `...VF`, `o: one(arg: {a: $a})`, `o2: one(arg: {b: $a})`},
 	}, Optional: []string{"VF", "VG"}},
 	{Name: "fragments", Template: `query Q { §0 } §1 §2`, Holes: [][]string{
